@@ -4,11 +4,11 @@ import OpusProofs.RangeCoderLockstep
 -/
 namespace Opus.RangeCoder
 
-/-- Decoder side of the lock-step: if the decoder (whose `val` is an `opus_uint32` and whose error
-    flag is clear before and after) returns the value the operation encoded, then its
-    `(rng, nbits_total)` makes the transition `Op.rn` — the same as the encoder's. -/
-theorem decOp_rn (d : Dec) (op : Op) (hr : RngOk d) (hl : op.Legal) (hv : d.val < 4294967296)
-    (hm : op.Matches (decOp d op).1) (he0 : d.error = 0) (he : (decOp d op).2.error = 0) :
+/-- Decoder side of the lock-step, for every operation other than `ec_dec_uint`: if the decoder returns
+    the value the operation encoded, then its `(rng, nbits_total)` makes the transition `Op.rn` — the
+    same as the encoder's — whatever the buffer contents, `val` and the error flags. -/
+theorem decOp_rn (d : Dec) (op : Op) (hr : RngOk d) (hl : op.Legal) (hnu : ∀ v ft, op ≠ .uint v ft)
+    (hm : op.Matches (decOp d op).1) :
     ((decOp d op).2.rng, (decOp d op).2.nbitsTotal) = op.rn d.rng d.nbitsTotal := by
   cases op with
   | encode fl fh ft =>
@@ -64,53 +64,6 @@ theorem decOp_rn (d : Dec) (op : Op) (hr : RngOk d) (hl : op.Legal) (hv : d.val 
     simp only [decOp, Op.rn, b1, b2]
   | patchInitial v n => rfl
   | shrink size => rfl
-  | uint v ft =>
-    obtain ⟨l1, l2, l3⟩ := hl
-    by_cases hb : ilog (ft - 1) > 8
-    · have hleg := uint_hi_legal l1 l2 l3 hb
-      have hft'256 := uint_hi_ft_le l1 hb
-      have hftb24 : ilog (ft - 1) - 8 ≤ 24 := by
-        have : ilog (ft - 1) ≤ 32 := by rw [ilog_lt_iff]; omega
-        omega
-      simp only [decOp, decUint, Op.Matches, Op.rn, if_pos hb] at hm he ⊢
-      generalize ilog (ft - 1) - 8 = ftb at *
-      generalize (ft - 1) / 2 ^ ftb + 1 = ft' at *
-      have hs256 := decode_lt d ft' hr hv hleg.2.2.1 hft'256
-      have hc1 : (decode d ft').2 = { d with ext := d.rng / ft' } := by simp only [decode, udiv]
-      rw [hc1] at hm he ⊢
-      generalize (decode d ft').1 = s at *
-      obtain ⟨b1, b2, b3, b4⟩ := decBits_rn (decUpdate { d with ext := d.rng / ft' } s (s + 1) ft') ftb
-      have hupd_err : (decUpdate { d with ext := d.rng / ft' } s (s + 1) ft').error = 0 := by
-        simp only [decUpdate, decNormalize_error]; exact he0
-      generalize decBits (decUpdate { d with ext := d.rng / ft' } s (s + 1) ft') ftb = rb at *
-      obtain ⟨lo, c3⟩ := rb
-      simp only at hm he b1 b2 b3 b4 ⊢
-      have hsh : s <<< ftb < 4294967296 := by
-        clear hm he
-        rw [Nat.shiftLeft_eq]
-        have h1 : 2 ^ ftb ≤ 2 ^ 24 := Nat.pow_le_pow_right (by decide) hftb24
-        have h2 : s * 2 ^ ftb ≤ 255 * 2 ^ 24 := Nat.mul_le_mul (by omega) h1
-        omega
-      rw [u32_of_lt hsh, Nat.or_comm, or_shift _ _ _ b4] at hm he ⊢
-      by_cases ht : lo + s * 2 ^ ftb ≤ ft - 1
-      · rw [if_pos ht] at hm he ⊢
-        simp only at hm ⊢
-        have hsv : s = v / 2 ^ ftb := by
-          rw [← hm, Nat.add_mul_div_right _ _ (Nat.pow_pos (by decide)), Nat.div_eq_of_lt b4, Nat.zero_add]
-        rw [b1, b2]
-        have := decUpdate_rn { d with ext := d.rng / ft' } s (s + 1) ft' hr
-          (by rw [hsv]; exact hleg) rfl
-        rw [← hsv]
-        rw [Prod.ext_iff] at this
-        simp only at this
-        rw [this.1, this.2]
-      · rw [if_neg ht] at he
-        simp only at he
-        exact absurd he (by decide)
-    · have hleg := uint_lo_legal l1 l3 hb
-      simp only [decOp, decUint, Op.Matches, Op.rn, if_neg hb] at hm he ⊢
-      have hc1 : (decode d (ft - 1 + 1)).2 = { d with ext := d.rng / (ft - 1 + 1) } := by simp only [decode, udiv]
-      rw [hc1, hm]
-      exact decUpdate_rn { d with ext := d.rng / (ft - 1 + 1) } v (v + 1) (ft - 1 + 1) hr hleg rfl
+  | uint v ft => exact absurd rfl (hnu v ft)
 
 end Opus.RangeCoder
